@@ -316,6 +316,47 @@ pub fn run_escape(re: &str, text: &str) -> Outcome {
 }
 const ESCAPE_FORMS: &[(&str, &str)] = &[("\\x{61}", "a"), ("\\x{e9}", "é"), ("\\u{e9}", "é"), ("\\U{1F600}", "\u{1F600}"), ("[\\x{61}-\\x{63}]+", "abc"), ("\\x61", "a"), ("\\u00e9", "é"), ("\\U0001F600", "\u{1F600}"), ("\\xg", "xg")];
 
+/// One flag of the %grmtools section, written with one value, judged by what the lexer then does on one input: the
+/// flag in force is the one written (and no other flag changes with it).
+const FLAG_CASES: &[(&str, &str, &str, &str)] = &[
+    // (section, regex, input, expected first lexeme length | "none" (no rule matches at 0) | "refused")
+    ("multi_line", "a$", "a\nb", "1"), ("!multi_line", "a$", "a\nb", "none"),
+    ("dot_matches_new_line", "a.", "a\n", "2"), ("!dot_matches_new_line", "a.", "a\n", "none"),
+    ("case_insensitive", "a", "A", "1"), ("!case_insensitive", "a", "A", "none"),
+    ("swap_greed", "a+", "aaa", "1"), ("!swap_greed", "a+", "aaa", "3"),
+    ("ignore_whitespace", "a b", "ab", "2"), ("!ignore_whitespace", "a b", "ab", "none"),
+    ("unicode", "\\w", "\u{e9}", "2"), ("!unicode", "\\w", "\u{e9}", "none"),
+    ("octal", "\\101", "A", "1"), ("!octal", "\\101", "A", "refused"),
+    ("posix_escapes", "\\b", "\u{8}", "1"), ("!posix_escapes", "\\b", "\u{8}", "none"),
+    ("dfa_size_limit: 10", "[a-zA-Z_][a-zA-Z0-9_]*", "ab", "2"), ("size_limit: 10", "[a-zA-Z_][a-zA-Z0-9_]*", "ab", "refused"),
+    ("size_limit: 1000000, dfa_size_limit: 10", "[a-zA-Z_][a-zA-Z0-9_]*", "ab", "2"),
+    ("nest_limit: 1", "((a))", "a", "refused"), ("nest_limit: 5", "((a))", "a", "1"),
+];
+pub fn run_flagforce(section: &str, re: &str, input: &str) -> Outcome {
+    use lrlex::{DefaultLexerTypes, LRNonStreamingLexerDef, LexerDef};
+    use lrpar::{Lexeme, NonStreamingLexer};
+    crate::note_case("c11_flagforce", json!({"section": section, "re": re, "input": input}));
+    let expected = FLAG_CASES.iter().find(|c| c.0 == section && c.1 == re && c.2 == input).map(|c| c.3.to_string()).unwrap_or_else(|| "?".to_string());
+    let src = format!("%grmtools{{{}}}\n%%\n{} 'T'\n", section, re);
+    let t = input.to_string();
+    let r = std::panic::catch_unwind(std::panic::AssertUnwindSafe(move || {
+        match LRNonStreamingLexerDef::<DefaultLexerTypes<u32>>::from_str(&src) {
+            Err(_) => "refused".to_string(),
+            Ok(mut d) => {
+                let mut m = std::collections::HashMap::new();
+                m.insert("T", 0u32);
+                let _ = d.set_rule_ids(&m);
+                let lx = d.lexer(&t);
+                let first = lx.iter().next();
+                let res = match first { Some(Ok(l)) if l.span().start() == 0 => l.span().len().to_string(), _ => "none".to_string() };
+                res
+            }
+        }
+    }));
+    let observed = match r { Ok(s) => s, Err(_) => "panic".to_string() };
+    Outcome { fails: expected != "?" && observed != expected, observed: format!("%grmtools{{{}}}, rule {}, input {:?}: {}", section, re, input, observed), expected }
+}
+
 pub fn search(tag: &str, tier: &str) -> Option<Value> {
     let want_header = tag.contains("whole_text");
     let mut other = None;
@@ -337,6 +378,10 @@ pub fn search(tag: &str, tier: &str) -> Option<Value> {
         }
     }
     if other.is_some() { return other; }
+    for (section, re, input, _) in FLAG_CASES {
+        let o = run_flagforce(section, re, input);
+        if o.fails { return Some(witness("c11_flagforce", json!({"section": section, "re": re, "input": input}), &o)); }
+    }
     for (re, text) in ESCAPE_FORMS {
         let o = run_escape(re, text);
         if o.fails { return Some(witness("c11_escape", json!({"re": re, "text": text}), &o)); }
